@@ -1332,7 +1332,7 @@ static Janet os_execute_impl(int32_t argc, Janet *argv, JanetExecuteMode mode) {
                 status = execv(cargv[0], cargv);
             }
         } while (status == -1 && errno == EINTR);
-        janet_panicf("%p: %s", cargv[0], janet_strerror(errno ? errno : ENOENT));
+        janet_panicf("%s: %s", cargv[0], janet_strerror(errno ? errno : ENOENT));
     }
 
     /* Use posix_spawn to spawn new process */
